@@ -860,3 +860,41 @@ Proof.
   rewrite (tail_unfold cfg t l' ann' rr' la (Done false)); auto.
   rewrite (drift_detected_thm t false p l l' la W M D). reflexivity.
 Qed.
+
+(* ------------------------------------------------------------------ *)
+(* C05: a deviation that never reaches the comparator (known finding)  *)
+(* ------------------------------------------------------------------ *)
+
+(* the target specifies metadata.annotations; the live value is retyped to a
+   truthy non-map: _extract_last_applied raises AttributeError (line 830
+   `metadata.get("annotations")` / 834 `annotations.get(...)`), the exception
+   leaves reconcile_krm_resource and no correction is made *)
+Definition wg_target : json :=
+  JMap [("metadata", JMap [("name", JStr "w"); ("annotations", JMap [("note", JStr "n")])]);
+        ("spec", JMap [("a", JInt 1)])].
+Definition wg_live_md : list (string * json) :=
+  [("name", JStr "w"); ("annotations", JMap [("note", JStr "n"); ("other", JStr "o")])].
+Definition wg_live_top : list (string * json) :=
+  [("metadata", JMap wg_live_md); ("spec", JMap [("a", JInt 1)])].
+Definition wg_live : json := JMap wg_live_top.
+Definition wg_live' : json :=
+  JMap (set_key "metadata" (JMap (set_key "annotations" (JStr "x") wg_live_md)) wg_live_top).
+Definition wg_cfg (u : policy) : tail_cfg :=
+  {| tc_should_own := false; tc_owner_ref := JMap []; tc_update := u |}.
+
+Lemma annotations_retype_raises :
+  wf wg_target = true /\
+  vmatch wg_target wg_live None false = O_match /\
+  deviates wg_target false [SKey "metadata"; SKey "annotations"] wg_live wg_live' /\
+  (* the comparator itself would report the drift ... *)
+  vmatch wg_target wg_live' None false = O_false /\
+  (* ... but the tail raises before it gets there, whatever the policy *)
+  (forall u, tail (wg_cfg u) wg_target wg_live' None = Some (TRaised ExAttributeError, [])).
+Proof.
+  split; [vm_compute; reflexivity|]. split; [vm_compute; reflexivity|].
+  split; [|split; [vm_compute; reflexivity | intros u; destruct u; vm_compute; reflexivity]].
+  unfold wg_target, wg_live, wg_live'.
+  eapply (dev_key _ _ _ "metadata" _ _ _ _ [] [] []); try (vm_compute; reflexivity).
+  eapply (dev_key _ _ _ "annotations" _ _ _ _ [] [] []); try (vm_compute; reflexivity).
+  apply dev_map_retyped. discriminate.
+Qed.
